@@ -314,6 +314,14 @@ impl Reader {
 					)));
 				}
 
+				// Metadata records carry a checksum like data records: verify it, otherwise a
+				// data record whose type byte is damaged into this type would be skipped silently
+				let record_data =
+					&self.buffer[self.buffer_offset..self.buffer_offset + length as usize];
+				if calculate_crc32(&[type_byte], record_data) != crc {
+					return Err(Error::IO(IOError::new(io::ErrorKind::Other, "checksum mismatch")));
+				}
+
 				// Parse and store compression type
 				if length > 0 {
 					let compression_byte = self.buffer[self.buffer_offset];
